@@ -445,6 +445,8 @@ class Tr:
                 return f"({c} : Nat)"
             if is_opt(ty) and c is None:
                 return f"(none : {lty(ty)})"
+            if is_list(ty) and c == ():
+                return f"([] : {lty(ty)})"
             if is_opt(ty):
                 return f"(some {atom(self.want(v, ty[1], env))})"
             if is_list(ty) and ty[1] == "Char" and isinstance(c, str):
@@ -647,7 +649,7 @@ class Tr:
             if isinstance(b, Qty) and name in ("isnan", "isinf"):
                 return k(("qty-attr", b, name), env)
             raise Unsupported(f"attribute {name} of {b} (a value that may be None / of unknown kind)")
-        if isinstance(b, Ref) or isinstance(b, Term) and is_list(b.ty) or isinstance(b, Const) and isinstance(b.v, (dict, PrecTable, tuple)):
+        if isinstance(b, Ref) or isinstance(b, Term) and is_list(b.ty) or isinstance(b, Const) and isinstance(b.v, (dict, PrecTable, tuple, str)):
             return k(("bound", b, name, src.value if isinstance(src, ast.Attribute) else None), env)
         if isinstance(b, Inst):
             kw = dict(b.kwargs)
@@ -769,6 +771,9 @@ class Tr:
             return MatchOpt(f"Formula.lookupFetcher {atom(cur.term)} {atom(n)}", zv,
                             k(Term(f"(Formula.Step.metric {atom(n)} {zv})", "Step"), env),
                             k(Term(f"(Formula.Step.metric {atom(n)} {atom(z)})", "Step"), setter(env, new)))
+        if isinstance(cur, Const) and cur.v == () and meth == "append" and len(args) == 1 and isinstance(args[0], Term) \
+                and isinstance(args[0].ty, str):
+            return k(Const(None), setter(env, Term(f"[{args[0].term}]", ("list", args[0].ty, "seq"))))
         if not (isinstance(cur, Term) and is_list(cur.ty)):
             if isinstance(cur, Opaque):
                 return k(Const(None), env)
@@ -897,6 +902,13 @@ class Tr:
             if not isinstance(args[0], Const):
                 raise Unsupported(f"dict lookup with a symbolic key: {ast.unparse(src)[:60]}")
             return k(recv.v.get(args[0].v, args[1] if len(args) == 2 else Const(None)), env)
+        if isinstance(recv, Const) and recv.v == "" and name == "join" and len(args) == 1 and not kwargs:
+            a = self.deref(args[0], env)
+            if isinstance(a, Term) and a.ty == ("list", "Char", "seq"):
+                return k(a, env)  # the concatenation of one-character strings
+            if isinstance(a, Const) and a.v == ():
+                return k(Const(""), env)
+            raise Unsupported(f"call {ast.unparse(src)[:60]}")
         if isinstance(recv, Ref) and name == "copy" and not args:
             r, e2 = self.new_cell(env, env.cells[recv.cid])
             return k(r, e2)
@@ -1117,8 +1129,16 @@ class Tr:
         if isinstance(s, ast.Continue):
             return K.cont(env)
         if isinstance(s, ast.Raise):
-            exc = s.exc.func if isinstance(s.exc, ast.Call) else s.exc
-            return self.raise_leaf(ast.unparse(exc).split(".")[-1] if exc is not None else "Exception")
+            if s.exc is None:
+                return self.raise_leaf("Exception")
+
+            def raised(v, e):
+                if isinstance(v, Inst):
+                    return self.raise_leaf(v.cls)
+                if isinstance(v, Cls):
+                    return self.raise_leaf(v.name)
+                raise Unsupported(f"raise {ast.unparse(s.exc)[:50]}")
+            return self.ev(s.exc, env, mod, raised)
         if isinstance(s, ast.AnnAssign):
             if s.value is None:
                 return go(env)
@@ -1208,6 +1228,8 @@ class Tr:
                 return ("list", "Char", "seq")
             if v.v is None:
                 return "NoneType"
+            if v.v == ():
+                return "EmptyList"
         return None
 
     def locations(self, env: Env) -> dict:
@@ -1336,6 +1358,8 @@ class Tr:
         for l, vals in modified.items():
             tys = {self.ty_of(v) for v in vals + ([entry[l]] if l in entry else [])}
             tys.discard(None) if len(tys) > 1 else None
+            if "EmptyList" in tys and len(tys) == 2 and is_list(next(t for t in tys if t != "EmptyList")):
+                tys = {next(t for t in tys if t != "EmptyList")}
             if "NoneType" in tys and len(tys) == 2:
                 tys = {("opt", next(t for t in tys if t != "NoneType"))}
             if len(tys) != 1 or None in tys or "NoneType" in tys:
